@@ -779,6 +779,19 @@ func AtomicPoint(obj uintptr) {
 	x.point(pending{kind: OpAtomic, obj: obj})
 }
 
+// NoProgress takes back the progress the scheduling point just passed was credited with: the operation
+// turned out not to change shared memory (an atomic load, a failed compare-and-swap). Spinning threads are
+// re-enabled only by progress, so threads that spin on each other's reads cannot keep one another alive.
+//
+//go:norace
+func NoProgress() {
+	x := cur
+	if x == nil || x.aborting {
+		return
+	}
+	x.progress--
+}
+
 // Choose is a data choice with n options (alternatives cost one deviation unless free).
 //
 //go:norace
